@@ -121,8 +121,12 @@ class ClassTable:
         self.classes = {}
         for name, bases in BUILTIN_EXC.items():
             self.classes[name] = ClassInfo(name, bases)
-        root = repo_path('mitxgraders')
-        for dirpath, _dirs, files in os.walk(root):
+        walk = list(os.walk(repo_path('mitxgraders')))
+        # the vendored voluptuous validators are under contract too (C20); mitxgraders' own names win on a clash
+        vol = repo_path('voluptuous')
+        if os.path.isdir(vol):
+            walk.append((vol, [], ['error.py', 'validators.py']))
+        for dirpath, _dirs, files in walk:
             for fn in sorted(files):
                 if not fn.endswith('.py'):
                     continue
